@@ -76,5 +76,9 @@ func NearStrings() []string {
 		"1", "01", "1.0", "+1",
 		"a/b", "a//b", "a/b/", "a/./b",
 		"x?y#z", "x?y", "x#z",
+		// digest-shaped and identifier-shaped values in case variants (a canonicalising writer or reader folds them)
+		"deadbeef00", "DEADBEEF00", "DeadBeef00", "0a1b", "0A1b",
+		"urn:uuid:3e671687-395b-41f5-a30f-a58921a69b79", "urn:uuid:3E671687-395B-41F5-A30F-A58921A69B79", "URN:UUID:3e671687-395b-41f5-a30f-a58921a69b79",
+		"ÄÖ-Ω", "äö-ω",
 	}
 }
